@@ -290,12 +290,14 @@ func C15(c *Ctx) {
 				continue
 			}
 			dd := c.ReachOf(ret)
-			if !dd.Implies(okc) {
+			last := c.O.Of(ret.Results[len(ret.Results)-1])
+			// `return err` with err the writing function's own error: nil exactly when the write succeeded
+			ownErr := last.Kind == "extract" && len(last.Args) == 1 && last.Args[0].V == cs.Instr.(ssa.Value)
+			if !dd.Implies(okc) && !ownErr {
 				continue
 			}
 			m++
-			last := c.O.Of(ret.Results[len(ret.Results)-1])
-			r.Check("C15-3", sprintf("%s:return%d:nil-after-generate", ck, i+1), c.InstrPos(ret), last.Is("const", "nil"), "the run can end in an error after the output was written: "+last.String())
+			r.Check("C15-3", sprintf("%s:return%d:nil-after-generate", ck, i+1), c.InstrPos(ret), last.Is("const", "nil") || ownErr, "the run can end in an error after the output was written: "+last.String())
 		}
 		r.Check("C15-3", ck+":has-success-return", c.Pos(cs.Pos()), m >= 1, "no success return after the writing function")
 		// a deferred function that can set the error result runs after the write: it could fail the run with the output already replaced
@@ -341,6 +343,7 @@ func C15(c *Ctx) {
 			r.Check("C15-4", FnKey(cs.Fn)+"→"+key+":path-arg", c.Pos(cs.Pos()), a.IsField("config.Config.Output"), "the output path must be Config.Output unmodified, got "+a.String())
 		}
 	}
+	c.overlayRule("C15-6") // the loader flags: nothing that lets the go command write (BuildFlags)
 }
 
 // inLoop reports whether block b lies on a cycle of its function's CFG.
@@ -594,6 +597,7 @@ func C12(c *Ctx) {
 
 	c.pkgImportsIndexRule("C12-5")
 	c.overlayRule("C12-6")
+	c.fsReadInventory("C12-7")
 
 	r.Rule("C12-4", "exactly one os.WriteFile in module code, outside any loop, writing the whole formatted content")
 	if g != nil {
